@@ -212,8 +212,40 @@ def main():
                     submit(slot)
                     break
         return
+    if cmd == "rerun":
+        # run the survivors again (after the checks were strengthened); results replace the old entries
+        rp = os.path.join(AM, "results.jsonl")
+        rs = [json.loads(l) for l in open(rp)]
+        key = lambda r: (r["file"], r["line"], r["op"], r.get("col"))
+        surv = {key(r) for r in rs if r["status"] == "survived"}
+        todo = [(i, m) for i, m in enumerate(muts) if key(m) in surv]
+        print(len(todo), "survivors to run again")
+        out = os.path.join(AM, "rerun.jsonl")
+        with cf.ThreadPoolExecutor(max_workers=jobs) as ex, open(out, "a") as f:
+            # slots must not be shared between concurrent runs: hand them out one by one
+            import queue
+            q = queue.Queue()
+            for s_ in range(jobs):
+                q.put(100 + s_)
+
+            def job(i, m):
+                s_ = q.get()
+                try:
+                    return run_one(s_, i, m)
+                finally:
+                    q.put(s_)
+            for fut in cf.as_completed([ex.submit(job, i, m) for i, m in todo]):
+                r = fut.result()
+                f.write(json.dumps(r) + "\n")
+                f.flush()
+                print(r["idx"], r["file"], r["line"], r["op"], r["status"], r.get("killed_by"))
+        return
     if cmd == "report":
         rs = [json.loads(l) for l in open(os.path.join(AM, "results.jsonl"))]
+        rr = os.path.join(AM, "rerun.jsonl")
+        if os.path.exists(rr):
+            again = {(r["file"], r["line"], r["op"], r.get("col")): r for r in map(json.loads, open(rr))}
+            rs = [again.get((r["file"], r["line"], r["op"], r.get("col")), r) for r in rs]
         from collections import Counter
         c = Counter(r["status"] for r in rs)
         print(dict(c))
